@@ -207,7 +207,7 @@ func genCleanScn(t *rapid.T, col *collector, so scnOpts) cleanScn {
 			}
 		}
 		if !dup {
-			s.Stale = append(s.Stale, staleEntry{Cfg: ci, ID: BS(id), Body: BS(stripCR(refEscape(genText(t, o)))), Pos: rapid.IntRange(0, 30).Draw(t, "spos")})
+			s.Stale = append(s.Stale, staleEntry{Cfg: ci, ID: BS(id), Body: BS(vhStripCR(refEscape(genText(t, o)))), Pos: rapid.IntRange(0, 30).Draw(t, "spos")})
 		}
 	}
 	// extra directory content
@@ -266,7 +266,7 @@ func genCleanScn(t *rapid.T, col *collector, so scnOpts) cleanScn {
 		s.Tests = append(s.Tests, many)
 	}
 	if so.rejects && rapid.IntRange(0, 3).Draw(t, "ghost") == 0 {
-		s.Cfgs = append(s.Cfgs, CfgSpec{Dir: "ghostdir", Filename: "h", Update: boolp(false)})
+		s.Cfgs = append(s.Cfgs, CfgSpec{Dir: "ghostdir", Filename: "h", Update: vhBoolp(false)})
 		ghost := scnTest{Name: rapid.SampledFrom([]string{"TestZGhost", "Test0Ghost", "TestAGhost"}).Draw(t, "ghostname"), SkipAt: -1}
 		for i := rapid.IntRange(1, 2).Draw(t, "nghost"); i > 0; i-- {
 			ghost.Calls = append(ghost.Calls, scnCall{Call: Call{API: "snap", Cfg: len(s.Cfgs) - 1, Vals: []Val{strVal("never recorded")}}, Ghost: true})
@@ -399,7 +399,7 @@ func (s cleanScn) execute(root string, mode Mode, count int, record bool) error 
 	solos := make([]*Config, len(s.Cfgs))
 	for i, c := range s.Cfgs {
 		if !record && i < len(s.RunUpdate) && s.RunUpdate[i] != "" && c.Update == nil {
-			c.Update = boolp(s.RunUpdate[i] == "true")
+			c.Update = vhBoolp(s.RunUpdate[i] == "true")
 		}
 		cfgs[i] = c.build(root)
 		solos[i] = soloOf(c).build(root)
@@ -458,10 +458,10 @@ func (s cleanScn) execute(root string, mode Mode, count int, record bool) error 
 					continue
 				}
 				if record && out != oAdded {
-					return fmt.Errorf("preparation: %s call %d (%s) outcome %s errors=%q", st.Name, k+1, c.Call.API, out, clipAll(r.Errors))
+					return fmt.Errorf("preparation: %s call %d (%s) outcome %s errors=%q", st.Name, k+1, c.Call.API, out, vhClipAll(r.Errors))
 				}
 				if !record && out == oFailed && !mode.CI {
-					return fmt.Errorf("run: %s call %d (%s) failed: %q", st.Name, k+1, c.Call.API, clipAll(r.Errors))
+					return fmt.Errorf("run: %s call %d (%s) failed: %q", st.Name, k+1, c.Call.API, vhClipAll(r.Errors))
 				}
 			}
 			if !record && st.SkipAt == len(st.Calls) {
@@ -509,7 +509,7 @@ func (s cleanScn) prepare(root string) error {
 			file, id := sc.slot(c.spec(s.Cfgs), st.Name, c.Call)
 			data, err := os.ReadFile(filepath.Join(root, file))
 			if err != nil {
-				return fmt.Errorf("preparation: %s recorded a %s snapshot, but %q does not exist (directory: %v)", st.Name, c.Call.API, file, keysOfState(snapDir(root)))
+				return fmt.Errorf("preparation: %s recorded a %s snapshot, but %q does not exist (directory: %v)", st.Name, c.Call.API, file, vhKeysOfState(snapDir(root)))
 			}
 			if id != "" && !strings.Contains(string(data), "\n["+id+"]\n") {
 				return fmt.Errorf("preparation: %q holds no entry %q after %s recorded it", file, id, st.Name)
@@ -522,7 +522,7 @@ func (s cleanScn) prepare(root string) error {
 	}
 	for ci, list := range byCfg {
 		p := filepath.Join(root, s.Cfgs[ci].multiPath())
-		es, err := refParse(readFile(p))
+		es, err := refParse(vhReadFile(p))
 		if err != nil {
 			return fmt.Errorf("preparation: recorded file not well formed: %v", err)
 		}
@@ -689,7 +689,7 @@ func limitDescriptors(headroom int) func() {
 	return func() { syscall.Setrlimit(syscall.RLIMIT_NOFILE, &old) }
 }
 
-func relTo(root, p string) string {
+func vhRelTo(root, p string) string {
 	if r, err := filepath.Rel(root, p); err == nil {
 		return r
 	}
@@ -706,7 +706,7 @@ func checkC07(s cleanScn) error {
 	}
 	listedFiles := map[string]bool{}
 	for _, f := range r.sum.Files {
-		listedFiles[relTo(r.root, f)] = true
+		listedFiles[vhRelTo(r.root, f)] = true
 	}
 	// the summary lists ids without their file: an id may be listed once for every addressed file in which
 	// an entry of that id exists without having been addressed there
@@ -749,7 +749,7 @@ func checkC07(s cleanScn) error {
 		}
 		post, perr := refParse(r.afterClean[file].Data)
 		if perr != nil && s.Dangling < 0 && s.CRLF == 0 {
-			return fmt.Errorf("file %q after Clean is not well formed: %v; content %q", file, perr, clip(r.afterClean[file].Data))
+			return fmt.Errorf("file %q after Clean is not well formed: %v; content %q", file, perr, vhClip(r.afterClean[file].Data))
 		}
 		if perr != nil {
 			post = refParseLoose(r.afterClean[file].Data)
@@ -764,7 +764,7 @@ func checkC07(s cleanScn) error {
 				return fmt.Errorf("entry %q of %q was addressed in this run (count %d, run %q, mode %+v sort=%v) but Clean removed it", id, file, s.Count, s.RunOnly, s.Mode, s.Sort)
 			}
 			if post[j].Body != pre[i].Body {
-				return fmt.Errorf("entry %q of %q was addressed in this run but Clean altered it: %q -> %q", id, file, clip(string(pre[i].Body)), clip(string(post[j].Body)))
+				return fmt.Errorf("entry %q of %q was addressed in this run but Clean altered it: %q -> %q", id, file, vhClip(string(pre[i].Body)), vhClip(string(post[j].Body)))
 			}
 		}
 	}
@@ -805,7 +805,7 @@ func checkC07(s cleanScn) error {
 				}
 				res := c.Call.invoke(cfg, ft)
 				if out, err := outcomeOf(res); err != nil || out != oPassed {
-					return fmt.Errorf("after Clean, replaying %s call %d (%s): outcome %q err %v errors=%q", st.Name, k+1, c.Call.API, out, err, clipAll(res.Errors))
+					return fmt.Errorf("after Clean, replaying %s call %d (%s): outcome %q err %v errors=%q", st.Name, k+1, c.Call.API, out, err, vhClipAll(res.Errors))
 				}
 			}
 			ft.finish()
@@ -907,7 +907,7 @@ func classifyCleanScn(s cleanScn) ([]string, bool) {
 	if s.Mode.CI {
 		cls = append(cls, "ci")
 	}
-	cls = uniq(cls)
+	cls = vhUniq(cls)
 	return cls, true
 }
 
@@ -978,7 +978,7 @@ func checkC09(s cleanScn) error {
 
 	listedFiles := map[string]bool{}
 	for _, f := range r.sum.Files {
-		rel := relTo(r.root, f)
+		rel := vhRelTo(r.root, f)
 		listedFiles[rel] = true
 		if _, ok := m.multiLive[rel]; ok || m.soloLive[rel] {
 			return fmt.Errorf("file %q was addressed in this run but is listed as obsolete", rel)
@@ -989,7 +989,7 @@ func checkC09(s cleanScn) error {
 	}
 	for f := range staleFiles {
 		if !listedFiles[f] {
-			return fmt.Errorf("unaddressed file %q in a visited snapshot directory is not reported as obsolete (summary: %q)", f, clip(r.sum.Raw))
+			return fmt.Errorf("unaddressed file %q in a visited snapshot directory is not reported as obsolete (summary: %q)", f, vhClip(r.sum.Raw))
 		}
 	}
 	// entries: the summary lists ids without their file; compare as multisets over all files
@@ -1203,10 +1203,10 @@ func checkC20Scn(s cleanScn) error {
 	m := r.model
 	listed := map[string]bool{}
 	for _, f := range r.sum.Files {
-		if listed[relTo(r.root, f)] {
-			return fmt.Errorf("file %q is listed twice in the summary: %q", relTo(r.root, f), clip(r.sum.Raw))
+		if listed[vhRelTo(r.root, f)] {
+			return fmt.Errorf("file %q is listed twice in the summary: %q", vhRelTo(r.root, f), vhClip(r.sum.Raw))
 		}
-		listed[relTo(r.root, f)] = true
+		listed[vhRelTo(r.root, f)] = true
 	}
 	// an id is listed at most as often as there are used files holding an entry with that id
 	holders := map[string]int{}
@@ -1224,7 +1224,7 @@ func checkC20Scn(s cleanScn) error {
 	for _, id := range r.sum.Tests {
 		times[id]++
 		if times[id] > holders[id] {
-			return fmt.Errorf("entry %q is listed %d times in the summary but only %d used file(s) hold an entry with that id: %q", id, times[id], holders[id], clip(r.sum.Raw))
+			return fmt.Errorf("entry %q is listed %d times in the summary but only %d used file(s) hold an entry with that id: %q", id, times[id], holders[id], vhClip(r.sum.Raw))
 		}
 	}
 	for p, st := range r.preClean {
@@ -1239,7 +1239,7 @@ func checkC20Scn(s cleanScn) error {
 			continue
 		}
 		if !listed[p] {
-			return fmt.Errorf("unaddressed file %q in a visited snapshot directory is missing from the summary's obsolete list (mode %+v, read-only tree %v); summary %q", p, s.Mode, s.ReadOnly, clip(r.sum.Raw))
+			return fmt.Errorf("unaddressed file %q in a visited snapshot directory is missing from the summary's obsolete list (mode %+v, read-only tree %v); summary %q", p, s.Mode, s.ReadOnly, vhClip(r.sum.Raw))
 		}
 	}
 	return nil
